@@ -80,6 +80,9 @@ def evaluate(repo, mod, node, local_names=None, _depth=0):
             cls = _resolve_class(repo, mod, node.value.value)
             if cls is not None and cls.enum_kind:
                 return cls.member_dict().get(node.value.attr, UNKNOWN)
+        cls = _resolve_class(repo, mod, node.value)
+        if cls is not None and cls.enum_kind in ("IntEnum", "IntFlag") and node.attr in cls.member_dict():
+            return cls.member_dict()[node.attr]         # a member of an integer enumeration is the integer
         dn = repo.dotted(mod, node)
         if dn:
             found = repo.lookup(dn)
@@ -120,6 +123,44 @@ def evaluate(repo, mod, node, local_names=None, _depth=0):
             except TypeError:
                 return UNKNOWN
         return out
+    if isinstance(node, (ast.GeneratorExp, ast.ListComp)) and len(node.generators) == 1:
+        # [f(a, b) for a, b in ROWS if p(a)] over a constant sequence: the list of its items
+        g = node.generators[0]
+        seq = ev(g.iter)
+        names = [g.target.id] if isinstance(g.target, ast.Name) else (
+            [e.id for e in g.target.elts] if isinstance(g.target, ast.Tuple) and all(isinstance(e, ast.Name) for e in g.target.elts) else None)
+        if isinstance(seq, (tuple, list)) and len(seq) <= 256 and names is not None and not g.is_async:
+            out = []
+            for item in seq:
+                ln = dict(local_names or {})
+                if isinstance(g.target, ast.Name):
+                    ln[names[0]] = item
+                else:
+                    if not isinstance(item, (tuple, list)) or len(item) != len(names):
+                        return UNKNOWN
+                    ln.update(zip(names, item))
+                keep = True
+                for c_ in g.ifs:
+                    cv = evaluate(repo, mod, c_, ln, _depth + 1)
+                    if cv is UNKNOWN:
+                        return UNKNOWN
+                    if not cv:
+                        keep = False
+                        break
+                if not keep:
+                    continue
+                v = evaluate(repo, mod, node.elt, ln, _depth + 1)
+                if v is UNKNOWN:
+                    return UNKNOWN
+                out.append(v)
+            return out
+        return UNKNOWN
+    if isinstance(node, ast.Call) and isinstance(node.func, ast.Attribute) and node.func.attr == "join" and len(node.args) == 1 \
+            and not node.keywords:
+        sep, items = ev(node.func.value), ev(node.args[0])
+        if isinstance(sep, str) and isinstance(items, (list, tuple)) and all(isinstance(x, str) for x in items):
+            return sep.join(items)
+        return UNKNOWN
     if isinstance(node, ast.Call):
         fn = repo.dotted(mod, node.func)
         if fn == "len" and len(node.args) == 1:
